@@ -65,7 +65,19 @@ class Ctx:
         self.rng = random.Random(self.seed)
         self.t0 = time.time()
         self.replay_in = replay
-        self.scratch = os.path.join(VERIF, "build", "run", "%s-%s" % (pid, tier))
+        # one scratch directory per process (concurrent runs of the same check must not wipe each other);
+        # removed again by finish() on a clean exit, stale ones (> 3 h) are removed here.
+        rundir = os.path.join(VERIF, "build", "run")
+        os.makedirs(rundir, exist_ok=True)
+        for d in os.listdir(rundir):
+            if d.startswith("%s-%s" % (pid, tier)):
+                pth = os.path.join(rundir, d)
+                try:
+                    if time.time() - os.path.getmtime(pth) > 3 * 3600 or d == "%s-%s" % (pid, tier):
+                        shutil.rmtree(pth, ignore_errors=True)
+                except OSError:
+                    pass
+        self.scratch = os.path.join(rundir, "%s-%s-%d" % (pid, tier, os.getpid()))
         shutil.rmtree(self.scratch, ignore_errors=True)
         os.makedirs(self.scratch, exist_ok=True)
         os.makedirs(os.path.join(VERIF, "build", "replay"), exist_ok=True)
@@ -521,6 +533,8 @@ class Ctx:
         }
         with open(os.path.join(VERIF, "evidence", "%s.json" % self.pid), "w") as f:
             json.dump(ev, f, indent=1, default=str)
+        if not self.violations and not self.infra_errors and not os.environ.get("VERIF_KEEP"):
+            shutil.rmtree(self.scratch, ignore_errors=True)
         if self.violations:
             print("RESULT property=%s violations=%d" % (self.pid, len(self.violations)))
             sys.exit(1)
